@@ -240,6 +240,16 @@ def gen_multi_conc(rng):
             if ops[-1] == "V":
                 ops.append("H%d" % i)
         threads.append(ops)
+    # a push into a FULL strict pool blocks until somebody pops (bounded queue): a program that pushes more objects into
+    # a strict pool than it can hold would block for good by its own doing, so such pools get room for every push
+    npush = {}
+    for ops in threads:
+        for o in ops:
+            if o[0] in "HU":
+                npush[int(o[1:])] = npush.get(int(o[1:]), 0) + 1
+    need = max([n for i, n in npush.items() if modes[i] == 1] + [0])
+    if need >= cap:
+        cap = need + 1
     return cap, int("".join(str(m) for m in modes)), "|".join(",".join(t) for t in threads)
 
 
